@@ -31,7 +31,7 @@ func init() {
 	kit.Register(&kit.Check{
 		Prop: "C05", Name: "staking-history", World: "CHAIN", Level: "exploration",
 		Rule: "one run = a seeded staking history of 30-60 blocks (generator of C07/chain: validators with delegations of every size, partial/full/forced withdrawals of validators and delegators waiting in the withdraw queue, double-sign evidences genuine / late / forged / wrong index / twice / for two validators); " +
-			"oracle per validator and block outside period ends, from raw enumerations of the state before and after: what a validator loses (its Token plus the unfinished withdraw records that name it) is zero unless the block's end-of-block receipt carries exactly one slashing record for it; then the loss is > 0, equals the record's Total, and is at most PenaltyFractionForDoubleSign % of (Token + unfinished withdrawals) before the block; finished withdraw records never change",
+			"oracle per validator and block outside period ends, from raw enumerations of the state before and after: what a validator loses (its Token plus the unfinished withdraw records that name it) is zero unless the block's end-of-block receipt carries exactly one slashing record for it; then the loss is > 0, equals the record's Total, and is at most PenaltyFractionForDoubleSign % of (Token + unfinished withdrawals) before the block; finished withdraw records never change; a genuine, timely evidence against a validator that still has a record reaches the block's slash data",
 		Real: realParts, Stub: stubParts, FaultsNotInjected: notInjected, Assumptions: assumptions,
 		QuickBudget: 35 * time.Second, ThoroughBudget: 10 * time.Minute, MinRuns: 16, Share: 1,
 		Exec: runC05h, PanicClass: kit.PanicInRepo("panic-in-block-processing"),
@@ -72,6 +72,17 @@ func (o *c05h) onBuilt(n int, ref *blockRef) {
 	s, r := o.s, o.s.r
 	pre, post := o.prev, ref.view
 	o.prev = post
+	// a genuine, timely evidence (two precommits of one validator for different blocks in the
+	// parent round, handed to the builder before it built this block) must reach the block's
+	// slash data as long as the validator still has a record
+	if ref.evidenceUnrecorded {
+		if tv := findVal(pre.rawVals, s.g.evidenceTarget); tv != nil {
+			r.Report("genuine-timely-evidence-not-recorded", "block %d: a genuine double-sign evidence against %s (Token %v, status %d, expelled %v) for round %d was handed to the builder, yet the block carries no slash data",
+				n, s.act.name(s.g.evidenceTarget), tv.Token, tv.Status, tv.Expelled, s.g.evidenceFor)
+		} else {
+			r.Probe("evidence-against-deleted-validator")
+		}
+	}
 	if (uint64(n)+1)%s.sc.F == 0 {
 		return // period end: transactions take effect, withdrawals are released, inactivity is judged
 	}
